@@ -172,6 +172,7 @@ def main(argv):
 
     # ---------------- Kani groups ----------------
     kres = None
+    kani_checks = kani_passed = 0
     if pr.get("kani_groups"):
         try:
             kres = kanilib.run_groups(prop, pr["kani_groups"], tier if not only_harness else "thorough", os.path.join(work, "kani"), only_harness=only_harness)
@@ -185,8 +186,12 @@ def main(argv):
                     failed.append(e)
                 else:
                     other_failed.append(e)
-            obligations += kres["checks"]
-            discharged += kres["checks"] - kres["failed_checks"]
+            kani_checks = kres["checks"]
+            kani_passed = kres["checks"] - kres["failed_checks"]
+            if pr["level"] != "proof":
+                # bounded Kani checks count as obligations only where the claimed level is itself bounded
+                obligations += kani_checks
+                discharged += kani_passed
             solver_ms += int(kres["solver_s"] * 1000)
             cmds += kres["cmds"][:3]
             samples += kres["samples"][:3]
@@ -257,6 +262,11 @@ def main(argv):
         "trusted_base": sorted("%s x%d" % (k, v) for k, v in trusted.items()) + pr.get("trusted_base", []),
         "functions_under_contract": functions,
         "verus_units": units_ev,
+        "obligations_backend": "verus 0.2026.09.13 / z3 (deductive, unbounded)" if pr["level"] == "proof" else "see level",
+        "bounded_kani_checks": kani_checks,
+        "bounded_kani_checks_passed": kani_passed,
+        "bounded_kani_harnesses": len(kres["harnesses"]) if kres else 0,
+        "bounded_note": "Kani/CBMC checks are bounded stand-ins; for a proof-level claim they are listed here and under `kani`, and are NOT counted in obligations/discharged" if pr["level"] == "proof" else "",
         "kani": kres["harnesses"] if kres else [],
         "type_probes": tres["summary"] if tres else None,
         "build_probes": bres,
@@ -280,8 +290,8 @@ def main(argv):
         tmp = os.path.join(EVID, prop + ".json.tmp")
         json.dump(ev, open(tmp, "w"), indent=1)
         os.replace(tmp, os.path.join(EVID, prop + ".json"))
-    print("check %s tier=%s: obligations=%d discharged=%d failed(tagged)=%d other-failed=%d infra=%d wall=%.1fs" %
-          (prop, tier, obligations, discharged, len(failed), len(other_failed), len(infra), wall))
+    print("check %s tier=%s: obligations=%d discharged=%d bounded-kani-checks=%d/%d failed(tagged)=%d other-failed=%d infra=%d wall=%.1fs" %
+          (prop, tier, obligations, discharged, kani_passed, kani_checks, len(failed), len(other_failed), len(infra), wall))
     for x in infra:
         print("INFRA: " + x[:2000])
     for e in known_hit:
